@@ -49,7 +49,9 @@ ASSUMPTIONS = [
     "basis functions are numbered with dimension 0 slowest (get_cross_product order) — a convention, fixed by the design-matrix clause",
     "normal-equation residuals are measured relative to ||L||_F ||alpha|| + ||r|| (backward error), 1e-8; rank-deficient systems allowed",
     "opticom: targets are generic (smooth function + seeded noise) so that no component grid has zero validation error and "
-    "the optimal coefficients do not sum to zero (the formulas divide by both)",
+    "the optimal coefficients do not sum to zero (the formulas divide by both); 'sum to one' is judged with the tolerance "
+    "1e-9 + 1e-12 * sum|c_i| (the normalisation of huge cancelling coefficients of an ill-conditioned Opticom system rounds "
+    "proportionally to their magnitude)",
     "train_sa: the refinement decisions come from the library's own ErrorCalculatorSingleDimVolumeGuided (train_spatially_adaptive "
     "creates it internally); the non-uniform grids it does not reach are covered by dimwise_direct",
     "targets are mostly >= -1: a target below -1 is rejected at construction (F-C20h), such cases (about one in ten) only "
@@ -672,9 +674,12 @@ def run_opticom(case):
         out.cls("option-%d-applied" % option)
         if not np.all(np.isfinite(coeffs)):
             out.bad("%s/sum/coefficients-not-finite" % sub, "%s: %s" % (tag, coeffs[:6]))
-        elif abs(s - 1.0) > TOL_SUM:
-            out.bad("%s/sum/not-one" % sub, "%s: sum=%r" % (tag, s))
-        out.info["max_sum_dev"] = max(out.info.get("max_sum_dev", 0.0), abs(s - 1.0) if np.isfinite(s) else 0.0)
+        elif abs(s - 1.0) > TOL_SUM + 1e-12 * float(np.sum(np.abs(coeffs))):
+            # rounding of the normalisation c_i / sum(c) is proportional to sum|c_i| (ill-conditioned Opticom systems give
+            # coefficients of size 1e8 that cancel); seen on the unchanged tree: <= 5e-17 * sum|c_i|
+            out.bad("%s/sum/not-one" % sub, "%s: sum=%r, sum|c_i|=%.3g" % (tag, s, float(np.sum(np.abs(coeffs)))))
+        if np.isfinite(s):
+            out.info["max_sum_dev_rel"] = max(out.info.get("max_sum_dev_rel", 0.0), abs(s - 1.0) / max(1.0, float(np.sum(np.abs(coeffs)))))
     out.nontrivial = case["d"] >= 2 and len(combi.scheme) >= 3 and applied >= 2
     out.cls("d=%d" % case["d"], "sa" if case["sa"] else "standard", "lambda=0" if case["lam"] == 0 else "lambda>0")
     out.info.update(max_grids=len(combi.scheme), max_dim=case["d"])
